@@ -364,6 +364,7 @@ T('C03', 'twin-sortkey-local', QX,
   "            rows.sort(key=nullitemgetter(*indexes), reverse=reverse)", "            keyfunc = nullitemgetter(*indexes)\n            rows.sort(key=nullitemgetter(*indexes), reverse=reverse)")
 
 # ---------------------------------------------------------------------- C05
+R('C05', 'regress-D29-coalesce-without-arguments', '6d2f354-coalesce-without-arguments.diff', ('R-COALESCE', 'coalesce'))
 R('C05', 'regress-D8-order-by-having-aggregate-checks', 'caafab6-ORDER-BY-and-HAVING-expressions-get-the-same-aggre.diff',
   ('R-TARGETCHK', '_compile_order_by'))
 R('C05', 'regress-D9-open-close-bool', 'c4835a7-FROM-OPEN-ON--date--CLOSE-without-a-date-no-longer.diff',
@@ -397,7 +398,7 @@ M('C05', 'pivot-distinct-guard-deleted', CO,
   "", ('R-GUARDS', 'pivot-distinct'))
 M('C05', 'in-subquery-columns-guard-deleted', CO,
   "            if len(right.columns) != 1:\n                raise CompilationError('subquery has too many columns', node.right)\n",
-  "", ('R-GUARDS', 'in-subquery-columns'))
+  "", ('R-INOP', '_inop'))
 M('C05', 'compilationerror-reparented', CO,
   "class CompilationError(ProgrammingError):", "class CompilationError(Exception):", ('R-EXCTREE', 'CompilationError'))
 M('C05', 'handler-dropped-for-between', CO,
@@ -471,7 +472,7 @@ M('C08', 'subquery-index-over-all-targets', QC,
   ('R-VISFILTER', 'SubqueryTable'))
 M('C08', 'in-subquery-columns-guard-deleted', CO,
   "            if len(right.columns) != 1:\n                raise CompilationError('subquery has too many columns', node.right)\n",
-  "", ('R-GUARDS', 'in-subquery-columns'))
+  "", ('R-INOP', '_inop'))
 T('C08', 'twin-restore-with-else', CO,
   "        table = self.table\n        try:\n            return self._compile_select(node)\n        finally:\n            self.table = table",
   "        table = self.table\n        try:\n            query = self._compile_select(node)\n            return query\n        finally:\n            self.table = table")
@@ -771,7 +772,7 @@ M('C13', 'dated-close-loses-date', QE,
   ('R-CALLORDER', 'BeanTable.prepare'))
 M('C13', 'open-close-order-guard-deleted', CO,
   "            if node.open and isinstance(node.close, datetime.date) and node.open > node.close:\n                raise CompilationError('CLOSE date must follow OPEN date')\n",
-  "", ('R-GUARDS', 'open-close-order'))
+  "", ('R-FROMCLAUSE', '_compile_from'))
 M('C13', 'default-close-overrides-explicit', SH,
   "            isinstance(statement.from_clause, parser.ast.From) and\n            not statement.from_clause.close):", "            isinstance(statement.from_clause, parser.ast.From)):",
   ('R-DEFAULTCLOSE', 'BQLShell.parse'))
